@@ -472,6 +472,9 @@ class System:
                         p, comp._component_type.name
                     )
                 )
+        # a parent may be given by its name and by its rail: still the same input
+        if len(pidx) > len(set(pidx)):
+            raise ValueError("parent paramenter contains duplicates!")
         # can only have one pmux
         if comp._component_type.name == "PMUX":
             for key in self._g.attrs["nodes"]:
